@@ -32,6 +32,35 @@ COMMUTATIVE_SET_METHODS = {"add", "update", "discard", "difference_update", "int
 SAFE: Dict[Tuple[str, str, str], str] = {}
 
 
+_ALPHA_CACHE: Dict[str, str] = {}
+
+
+def alpha(text: str) -> str:
+    """ consumer text with every variable name replaced by a positional placeholder (attribute names, called
+        functions, keyword names and constants kept): a reviewed site keeps its entry when locals are renamed """
+    if text in _ALPHA_CACHE:
+        return _ALPHA_CACHE[text]
+    source = text + ": pass" if text.startswith("for ") and not text.rstrip().endswith(":") else text
+    try:
+        tree = ast.parse(source)
+    except SyntaxError:
+        _ALPHA_CACHE[text] = text
+        return text
+    called = {id(n.func) for n in ast.walk(tree) if isinstance(n, ast.Call)}
+    order: Dict[str, str] = {}
+    for node in ast.walk(tree):
+        pass
+    names = [n for n in ast.walk(tree) if isinstance(n, ast.Name) and id(n) not in called]
+    names.sort(key=lambda n: (n.lineno, n.col_offset))
+    for node in names:
+        order.setdefault(node.id, f"_{len(order) + 1}")
+    for node in names:
+        node.id = order[node.id]
+    result = ast.unparse(tree)
+    _ALPHA_CACHE[text] = result
+    return result
+
+
 def safe(rel: str, qual: str, text: str, reason: str) -> None:
     SAFE[(rel, qual, text)] = reason
 
@@ -221,6 +250,12 @@ class Scanner:
     def flag(self, rel: str, node: ast.AST, qual: str, text: str, what: str, elem: str) -> None:
         self.instances += 1
         reason = SAFE.get((rel, qual, text))
+        if reason is None:
+            wanted = alpha(text)
+            for (srel, squal, stext), sreason in SAFE.items():
+                if srel == rel and squal == qual and alpha(stext) == wanted:
+                    reason = sreason
+                    break
         if reason is not None:
             self.ctx.ob(self.rule, rel, node, qual, text, True,
                         "reviewed: a set's iteration order reaches this consumer but cannot change a result",
@@ -423,6 +458,38 @@ class Scanner:
             return attrs
         return set()
 
+    def _key_attrs(self, rel: str, func: Optional[ast.AST], key: ast.AST) -> Optional[Set[str]]:
+        """ attributes of the element that the sort key is built from: a lambda, or a named key function (nested in the
+            caller or at module level) whose returned expressions are examined with its locals resolved """
+        if isinstance(key, ast.Lambda) and len(key.args.args) == 1:
+            param = key.args.args[0].arg
+            return {n.attr for n in ast.walk(key.body) if isinstance(n, ast.Attribute)
+                    and isinstance(n.value, ast.Name) and n.value.id == param}
+        if isinstance(key, ast.Name):
+            target = None
+            if func is not None:
+                for node in ast.walk(func):
+                    if isinstance(node, ast.FunctionDef) and node.name == key.id and node is not func:
+                        target = node
+            if target is None:
+                for qual, node in self.ctx.repo.functions(rel):
+                    if qual == key.id:
+                        target = node
+            if target is None or len(target.args.args) != 1:
+                return None
+            from ..cfg import CFG
+            from ..flow import inline_reaching
+            param = target.args.args[0].arg
+            cfg = CFG(target)
+            used: Optional[Set[str]] = None
+            for ret in [n for n in walk_local(target) if isinstance(n, ast.Return) and n.value is not None]:
+                resolved = inline_reaching(cfg, ret, ret.value)
+                attrs = {n.attr for n in ast.walk(resolved) if isinstance(n, ast.Attribute)
+                         and isinstance(n.value, ast.Name) and n.value.id == param}
+                used = attrs if used is None else used & attrs
+            return used
+        return None
+
     def _singleton(self, rel: str, expr: ast.AST) -> bool:
         module = self.ctx.repo.modules[rel]
         from ..index import UNRESOLVED
@@ -459,10 +526,8 @@ class Scanner:
                 return
             key = kwarg(call, "key")
             ident = self._identity_attrs(elem)
-            if key is not None and ident and isinstance(key, ast.Lambda) and len(key.args.args) == 1:
-                param = key.args.args[0].arg
-                used = {n.attr for n in ast.walk(key.body) if isinstance(n, ast.Attribute)
-                        and isinstance(n.value, ast.Name) and n.value.id == param}
+            used = self._key_attrs(rel, func, key) if key is not None else None
+            if key is not None and ident and used is not None:
                 if ident <= used:
                     self.hold(rel, call, qual, text, f"auto-safe: the sort key contains every identity attribute of "
                                                      f"{elem.split('.')[-1]} ({sorted(ident)}): equal keys are equal elements")
